@@ -469,4 +469,18 @@ Section PassTheorems.
     assert (E2: (r2 <? e_ver e) = false) by (apply N.ltb_ge; lia).
     now rewrite E1, E2.
   Qed.
+
+  (* one pass does not depend on the read timestamp once it is above every version *)
+  Lemma stream_pass_above r1 r2 m ks : view_ok m -> splits_ok prefix ks = true ->
+    Forall (fun e => e_ver e <= r1) m -> r1 <= r2 ->
+    stream_pass prefix since now banned kd choose r2 m ks
+    = stream_pass prefix since now banned kd choose r1 m ks.
+  Proof.
+    intros Hm Hok Hf Hle. unfold stream_pass. f_equal. apply map_ext_in. intros rng Hin.
+    destruct (splits_ok_spec _ _ Hok) as (_ & _ & Hp).
+    pose proof (ranges_from_lefts prefix ks Hp [] (or_introl eq_refl)) as Hl.
+    fold (ranges ks) in Hl. rewrite Forall_forall in Hl. specialize (Hl rng Hin).
+    rewrite !(produce_range_k prefix since now banned kd choose _ m rng Hm Hl).
+    unfold pass_k. now rewrite (shown_items_above r1 r2 m Hf Hle).
+  Qed.
 End PassTheorems.
